@@ -43,8 +43,42 @@ def model_strategy(draw, quick):
   return gm
 
 
+F4_XML = ('<mujoco><option integrator="RK4" gravity="0 0 0"><flag energy="enable" contact="disable"/></option><worldbody><body><freejoint/>'
+          '<inertial pos="0 0 -0.06" mass="0.1" diaginertia="0.01 0.012 0.002"/></body></worldbody></mujoco>')
+
+
+def probes(ck, lib):
+  """Deterministic probe: RK4 energy-drift order of a tumbling free body whose orientation matters (COM offset)."""
+  m = lib.model_from_xml(F4_XML)
+
+  def drift(h, n):
+    d = lib.make_data(m)
+    m.opt.timestep = h
+    d.qvel[:] = [1, 2, 3, 3, 2, 1]
+    lib.mj_forward(m, d)
+    e0 = float(sum(d.energy))
+    worst = 0.0
+    for i in range(n):
+      lib.mj_step(m, d)
+      if (i + 1) % 10 == 0:
+        lib.mj_forward(m, d)
+        worst = max(worst, abs(float(sum(d.energy)) - e0))
+    return worst
+  ds = [drift(2e-3 / f, 200 * f) for f in (1, 2, 4)]
+  if ds[2] > 1e-13:
+    order = float(np.log2(np.sqrt(ds[0] / ds[1] * ds[1] / ds[2])))
+    ck.extra['probe_F4_order'] = round(order, 3)
+    if order < 3.0:
+      ck.violation('RK4 energy drift of a free body with offset COM shrinks at order %.2f (drifts %s for h = 2e-3/(1,2,4)); the '
+                   'quaternion update is only 2nd-order accurate' % (order, ds), dict(xml=F4_XML, qvel=[1, 2, 3, 3, 2, 1]),
+                   bucket='probe-rk4-quaternion-order', fingerprint='C08:rk4-second-order-quaternion')
+  ck.label('probe:F4')
+
+
 def main(ck):
   lib = ck.lib('rel')
+  if not getattr(ck, '_replaying', False):
+    probes(ck, lib)
   E = lib.enums
   worst = {}
 
